@@ -190,6 +190,23 @@ def d23_region(s, i, infl):
     return True
 
 
+def d26_region(s, i, infl):
+    """every action in flight is an item of a with-items task whose latest report is `resuming`
+    (the task machine has no entry for an item's `resuming` report on a paused task)"""
+    if not infl:
+        return False
+    for key in infl:
+        if key[2] is None:
+            return False
+        last = None
+        for o in s["ops"][:i + 1]:
+            if o["op"] == "report" and (o["task"], o["route"], o.get("item")) == key:
+                last = o["status"]
+        if last != "resuming":
+            return False
+    return True
+
+
 def region_of(s, i):
     if rearrival_region(s, i):
         return "D2"
@@ -233,7 +250,8 @@ def mon_C02(s):
                         out.append(V("succeeded with unhandled failure of %s" % t["id"], i))
         if status in ("paused", "canceled") and infl:
             out.append(V("%s with actions in flight %s" % (status, sorted(map(str, infl))), i,
-                         "D2" if rearrival_region(s, i) else ("D23" if status == "paused" and d23_region(s, i, infl) else None)))
+                         "D2" if rearrival_region(s, i) else ("D23" if status == "paused" and d23_region(s, i, infl) else
+                                                              ("D26" if status == "paused" and d26_region(s, i, infl) else None))))
         if status in ("pausing", "canceling") and not infl and op["op"] in ("report", "req", "next"):
             out.append(V("%s with nothing in flight" % status, i, region_of(s, i)))
         # failure => failed
@@ -376,7 +394,8 @@ def mon_C10(s):
         if canceled_at is None:
             if op["op"] == "req" and op["status"] in ("canceling", "canceled") and not raised(r):
                 canceled_at = i
-                errs_at_cancel = list(st["errors"])
+                prev_st = s["replies"][i - 1].get("state") if i > 0 else None
+                errs_at_cancel = list((prev_st or st)["errors"])
             else:
                 continue
         infl, parked = led[i]
@@ -393,7 +412,9 @@ def mon_C10(s):
             out.append(V("status %s after cancel" % status, i))
         if status == "failed":
             new = [e for e in st["errors"] if e not in errs_at_cancel and e[0] not in ("ExecutionFailed", "UnreachableJoinError")]
-            was_failed = s["replies"][canceled_at]["state"]["status"] == "failed"
+            # the status the cancellation request met (not the one it left behind)
+            before = s["replies"][canceled_at - 1].get("state") if canceled_at > 0 else None
+            was_failed = before is not None and before["status"] == "failed"
             if not new and not was_failed:
                 out.append(V("cancel turned into failed without a runtime error", i))
     return out
